@@ -92,6 +92,21 @@ def _(repo):
     raise Miss(f"push/need_sync: unknown token priority expression {p!r}")
 
 
+# push, pack-boundary branch: is the global next_priority lowered below the decremented sample priority?
+@item("det_lower_next")
+def _(repo):
+    body = fn_body(_src(repo), "push")
+    m = re.search(r"if\s+need_sync\s*\{(.*?)\}\s*else\s*\{\s*current_priority", body, re.S)
+    if not m:
+        raise Miss("push: need_sync branch not found")
+    b = _norm(m.group(1))
+    if "if*next_p>=new_priority{*next_p=new_priority-1;}" in b:
+        return defN("det_lower_next", 1)
+    if "next_p" in b or "next_priority" in b:
+        raise Miss("push/need_sync: next_priority is touched in an unknown way")
+    return defN("det_lower_next", 0)
+
+
 # the need_sync condition and the two decrements
 @item("det_push_shape")
 def _(repo):
